@@ -21,6 +21,7 @@ def check(chk, thorough=False):
     chk.run('C07.c', 'R-SCHEMA', 'every length-prefixed field is verified against what was actually read, also when the value is empty', lambda ob: c07c(tree, ob), floor=6)
     chk.run('C07.d', 'R-SCHEMA', 'the completeness check accepts every bound message at its minimal encoded length', lambda ob: c07d(tree, ob), floor=7)
     chk.run('C07.g', 'R-PAIR', 'trailing octets are not counted into a probed message: every probe class strips the padding layer before the message is measured', lambda ob: c07g(tree, ob), floor=3)
+    chk.run('C07.h', 'R-GUARD', 'only a known message type can be called partial: an unassigned type is passed on (to be rejected) however many octets follow it (= C17.f)', lambda ob: __import__('sa.props.c17', fromlist=['c17f']).c17f(tree, ob), floor=2)
     chk.run('C07.f', 'R-FLOW', 'what is written to the socket is exactly the encoded messages: byte buffers only appended and prefix-dropped by what was accepted (= C01.b)', lambda ob: _c01b(tree, ob), floor=7)
     chk.run('C07.e', 'R-SCHEMA', 'message layouts equal RFC 9174 (= C04.h)', lambda ob: c04h(tree, ob), floor=7)
 
